@@ -37,6 +37,14 @@ type ReadRes struct {
 	Err error
 }
 
+// copyCollector is the destination of an io.Copy: a plain io.Writer.
+type copyCollector struct{ b []byte }
+
+func (c *copyCollector) Write(p []byte) (int, error) {
+	c.b = append(c.b, p...)
+	return len(p), nil
+}
+
 // RResult is the recorded history of a reader run.
 type RResult struct {
 	OpenErr   error
@@ -114,6 +122,34 @@ func runReader(format string, img []byte, want int, c *RCase, limit int, x *sim.
 			}
 		case -2:
 			l = rem + 1
+		case -3:
+			// the caller hands the rest to io.Copy (which prefers the reader's
+			// WriteTo if it has one); success of io.Copy is the clean end
+			var cw copyCollector
+			var n64 int64
+			var err error
+			yield()
+			pn := guard(func() { n64, err = io.Copy(&cw, rd) })
+			x.Step("api", 1)
+			if pn != nil {
+				res.Panic = pn
+				x.Ev("io.Copy -> panic %s", pn.Value)
+				break
+			}
+			res.Out = append(res.Out, cw.b...)
+			x.Ev("io.Copy -> n=%d err=%v", n64, err)
+			if int(n64) != len(cw.b) {
+				res.BadN = &ReadRes{Len: -3, N: int(n64), Err: err}
+				break
+			}
+			if err == nil {
+				err = io.EOF
+			}
+			res.Calls = append(res.Calls, ReadRes{Len: -3, N: int(n64), Err: err})
+			res.Final = err
+		}
+		if res.Final != nil || res.Panic != nil || res.BadN != nil {
+			break
 		}
 		if i >= 300_000 && l > 0 && l < 4096 {
 			// a multi-megabyte content under a schedule of tiny reads: after
@@ -238,6 +274,13 @@ func runReader(format string, img []byte, want int, c *RCase, limit int, x *sim.
 
 // genReads draws a Read-length schedule.
 func genReads(r *sim.Rng) []int {
+	if r.Chance(1, 8) {
+		// io.Copy, at once or after a few Reads
+		if r.Bool() {
+			return []int{-3}
+		}
+		return []int{sim.Pick(r, []int{1, 7, 273, 4096}), -3}
+	}
 	switch r.Intn(6) {
 	case 0:
 		return []int{32768}
@@ -273,6 +316,7 @@ func genSrcPlan(r *sim.Rng) simio.SourcePlan {
 		FragSeed:    r.Uint64(),
 		EOFWithData: r.Bool(),
 		ByteReader:  r.Chance(1, 4),
+		Bufio:       sim.Pick(r, []int{0, 0, 0, 0, 0, 16, 4096}),
 	}
 }
 
